@@ -792,7 +792,13 @@ static int32_t utc_load(struct jls_core_s * self, uint16_t signal_id) {
     }
     // Load every stored entry: an entry left out cannot be reproduced by the conversion.
     int64_t sample_start = INT64_MIN / 4;
-    return jls_core_utc(self, signal_id, sample_start, jls_tmap_add_cbk, signal->track_fsr->tmap);
+    int32_t rc = jls_core_utc(self, signal_id, sample_start, jls_tmap_add_cbk, signal->track_fsr->tmap);
+    if (rc) {
+        // do not keep a partial map: later conversions would silently use it
+        jls_tmap_free(signal->track_fsr->tmap);
+        signal->track_fsr->tmap = NULL;
+    }
+    return rc;
 }
 
 JLS_API int32_t jls_rd_sample_id_to_timestamp(struct jls_rd_s * self, uint16_t signal_id,
